@@ -177,6 +177,107 @@ fn check_case(case: &Case, sink: &Sink) {
     sink.sample(|| json!({"file": name, "expected_grammar_suffix": expected_suffix, "input": input}));
 }
 
+/// One file of the pair space: a name, the content written for the grammar the name *looks* like,
+/// and the grammar suffix the reference lookup assigns (None: skipped silently).
+struct PairName {
+    name: String,
+    text: String,
+    rendered: Option<crate::props::langkit::Rendered>,
+}
+
+/// Names of the pair space: per registered suffix S the plain `a/x.S`, a second stem `b/lib.S`,
+/// and the look-alikes that share S's last dot component (`b/song.mod` for `go.mod`), its
+/// spelling without a dot (`b/xS`) and `b/x.S.bak`. The look-alikes carry the probe of S's own
+/// grammar, so reading them with that grammar shows as blocks.
+fn pair_names() -> &'static Vec<PairName> {
+    static NAMES: std::sync::OnceLock<Vec<PairName>> = std::sync::OnceLock::new();
+    NAMES.get_or_init(|| {
+        let mut v = Vec::new();
+        for suffix in REGISTERED {
+            let (kit, _) = kit_for_suffix(suffix).expect("kit");
+            let probe = c03::render(kit, &probe_segs(kit), false);
+            let last = suffix.rsplit('.').next().unwrap();
+            let mut names = vec![name_for("a/x.S", suffix), name_for("b/lib.S", suffix), name_for("b/x.S.bak", suffix), format!("b/x{suffix}")];
+            if last != *suffix {
+                names.push(format!("b/song.{last}"));
+                names.push(format!("b/{last}"));
+            }
+            for name in names {
+                let base = name.rsplit('/').next().unwrap();
+                let expected = reference_suffix(base, &[]);
+                match expected.as_deref().and_then(kit_for_suffix) {
+                    // The name maps to S's grammar: the probe's blocks are expected.
+                    Some((k, _)) if std::ptr::eq(k, kit) => v.push(PairName { name, text: probe.text.clone(), rendered: Some(probe.clone()) }),
+                    // It maps to another grammar (`song.ts` for `d.ts` is TypeScript as well; `b/ts`…):
+                    // write that grammar's probe.
+                    Some((k, _)) => {
+                        let other = c03::render(k, &probe_segs(k), false);
+                        v.push(PairName { name, text: other.text.clone(), rendered: Some(other) });
+                    }
+                    None => v.push(PairName { name, text: probe.text.clone(), rendered: None }),
+                }
+            }
+        }
+        v
+    })
+}
+
+#[derive(Clone, Debug, PartialEq, Eq, Hash)]
+struct PairCase {
+    first: usize,
+    second: usize,
+    /// The second file is hidden from the walk and named by the diff only.
+    second_from_diff: bool,
+}
+
+fn check_pair(case: &PairCase, sink: &Sink) {
+    let names = pair_names();
+    let (a, b) = (&names[case.first], &names[case.second]);
+    if a.name == b.name {
+        return;
+    }
+    let input = json!({"pair": [a.name, b.name], "second_from_diff": case.second_from_diff});
+    let mut files = vec![(a.name.clone(), a.text.clone())];
+    let mut unwalked = Vec::new();
+    let mut diff = None;
+    if case.second_from_diff {
+        unwalked.push((b.name.clone(), b.text.clone()));
+        diff = Some(cli::new_file_diff(&b.name, &b.text));
+    } else {
+        files.push((b.name.clone(), b.text.clone()));
+    }
+    sink.exec();
+    let outcome = librun::run(&Input { files, unwalked, diff, list_only: true, globs: if case.second_from_diff { vec!["**".into()] } else { vec![] }, ..Default::default() });
+    match &outcome {
+        Outcome::Panic { message } => sink.fail(format!("C16:pair:panic:{}", first_line(message)), format!("{} + {}: panic {message}", a.name, b.name), input.clone()),
+        Outcome::Error { message, .. } => {
+            sink.outcome("pair:error");
+            sink.fail("C16:pair:error", format!("{} + {} in one run: {}", a.name, b.name, first_line(message)), input.clone());
+        }
+        Outcome::Report { blocks, .. } => {
+            let mut agree = true;
+            for (which, f) in [("first", a), ("second", b)] {
+                let found: Vec<_> = blocks.iter().filter(|bl| bl.file.to_string_lossy() == f.name).cloned().collect();
+                match &f.rendered {
+                    None if !found.is_empty() => {
+                        agree = false;
+                        sink.fail(format!("C16:pair:unknown-name-parsed:{which}"), format!("{} maps to no grammar, but next to {} in one run {} blocks were found in it", f.name, if which == "first" { &b.name } else { &a.name }, found.len()), input.clone());
+                    }
+                    None => {}
+                    Some(r) => {
+                        for (kind, msg) in c03::compare(r, &found, false) {
+                            agree = false;
+                            sink.fail(format!("C16:pair:{kind}:{which}"), format!("{} next to {} in one run: {msg}", f.name, if which == "first" { &b.name } else { &a.name }), input.clone());
+                        }
+                    }
+                }
+            }
+            sink.outcome(if agree { "pair:agree" } else { "pair:differ" });
+        }
+    }
+    sink.nontrivial();
+}
+
 /// CLI slice: `-E` validation and parsing through the real flag parser, hidden files via a diff.
 fn cli_slice(cfg: &Cfg, sink: &Sink) -> u64 {
     let mut n = 0;
@@ -186,10 +287,12 @@ fn cli_slice(cfg: &Cfg, sink: &Sink) -> u64 {
     repo.write("x.new", &rendered.text);
     repo.write("y.rs", &rendered.text);
     repo.write("z.unknown", "// <block> never closed\n");
+    repo.write("w.New", &rendered.text);
     for (args, ok, what) in [
         (vec!["list", "-E", "new=rs"], true, "new=rs"),
         (vec!["-E", "new=rs", "list"], true, "new=rs before subcommand"),
         (vec!["list", "-E", "new=rs", "-E", "unknown=py"], true, "two mappings"),
+        (vec!["list", "-E", "new=rs", "-E", "New=rs"], true, "upper-case key"),
         (vec!["list", "-E", "new=nosuch"], false, "unregistered target"),
         (vec!["list", "-E", "new=rs", "-E", "x=RS"], false, "unregistered (case) target"),
         (vec!["list", "-E", "new"], false, "no equals sign"),
@@ -208,7 +311,10 @@ fn cli_slice(cfg: &Cfg, sink: &Sink) -> u64 {
             let has_new = listed.get("x.new").and_then(Value::as_array).map(|a| a.len()) == Some(rendered.blocks.len());
             let has_rs = listed.get("y.rs").and_then(Value::as_array).map(|a| a.len()) == Some(rendered.blocks.len());
             // `unknown=py` maps z.unknown to Python, where `// …` is not a comment: still no blocks.
-            if run.code != Some(0) || !has_new || !has_rs || listed.get("z.unknown").is_some() {
+            // Keys are matched as written: `w.New` is read only under a mapping with that very key.
+            let has_upper = listed.get("w.New").and_then(Value::as_array).map(|a| a.len()) == Some(rendered.blocks.len());
+            let upper_ok = if what == "upper-case key" { has_upper } else { listed.get("w.New").is_none() };
+            if run.code != Some(0) || !has_new || !has_rs || !upper_ok || listed.get("z.unknown").is_some() {
                 sink.fail(format!("C16:cli:mapping-not-applied:{what}"), format!("{what}: {}", run.summary()), input.clone());
             }
             sink.outcome("cli:mapping-applied");
@@ -254,6 +360,17 @@ pub fn run(cfg: &Cfg, sink: &Arc<Sink>) -> Report {
     }
     let n = cases.len();
     report.phase(engine::explore("name shapes", &format!("{n} cases (full product)"), Grid { cases, check: |c: &Case, s: &Sink| check_case(c, s) }, sink, cfg.threads, false));
+    let k = pair_names().len();
+    let mut pairs = Vec::new();
+    for first in 0..k {
+        for second in 0..k {
+            for second_from_diff in [false, true] {
+                pairs.push(PairCase { first, second, second_from_diff });
+            }
+        }
+    }
+    let n = pairs.len();
+    report.phase(engine::explore("ordered pairs of names in one run", &format!("{n} cases: every ordered pair of {k} names (per registered suffix: two stems, `.bak`, dot-less, and for compound suffixes the look-alikes sharing the last component) × {{both walked, second named by the diff only}}; each file must be read exactly as it is read alone"), Grid { cases: pairs, check: |c: &PairCase, s: &Sink| check_pair(c, s) }, sink, cfg.threads, false));
     let n = cli_slice(cfg, sink);
     report.phase(crate::core::Phase { name: "CLI slice (-E parsing and validation)".into(), states: n, transitions: n, max_depth: 1, exhaustive: true, bound: "fixed list of flag spellings".into() });
     report
@@ -262,6 +379,15 @@ pub fn run(cfg: &Cfg, sink: &Arc<Sink>) -> Report {
 pub fn replay(cfg: &Cfg, input: &Value, sink: &Arc<Sink>) {
     if input.get("cli").is_some() || input.get("table").is_some() {
         cli_slice(cfg, sink);
+        return;
+    }
+    if let Some(pair) = input.get("pair").and_then(Value::as_array) {
+        let names = pair_names();
+        let idx = |v: &Value| names.iter().position(|n| Some(n.name.as_str()) == v.as_str());
+        match (idx(&pair[0]), idx(&pair[1])) {
+            (Some(first), Some(second)) => check_pair(&PairCase { first, second, second_from_diff: input["second_from_diff"].as_bool() == Some(true) }, sink),
+            _ => sink.machinery("replay: unknown pair"),
+        }
         return;
     }
     let find = |list: &[&'static str], key: &str| list.iter().copied().find(|s| Some(*s) == input[key].as_str());
